@@ -179,8 +179,8 @@ func formatCase(c *h.Case) {
 	if cdoc != nil && g.r.Intn(4) == 0 {
 		includesViaFiles(c, g, cdoc)
 	}
-	if c.Idx < 3 {
-		run.Sample(map[string]any{"kind": c.Data["kind"], "toml": short(texts["toml"])})
+	if c.Idx == 0 {
+		run.Sample(map[string]any{"kind": "configuration (" + c.Data["kind"].(string) + ")", "toml": short(texts["toml"])})
 	}
 }
 
